@@ -216,6 +216,7 @@ pub fn gen_scenario(seed: u64, profile: Profile) -> Scenario {
         dg_recv,
         faults: [None, None],
         drop_first: rng.below(3) as u8,
+        binds: vec![],
     }
 }
 
@@ -300,7 +301,7 @@ pub fn run_family(p: &Params, spec: &FamilySpec) -> (Stats, &'static str) {
     for i in 0..n {
         let seed = mix(base, i);
         let sc = gen_scenario(seed, spec.profile);
-        let meta = Meta { abnormal_end: false, dgram_cap: [sc.cfg[0].dgram_buf, sc.cfg[1].dgram_buf], stream_is_bridge: false, sim: true };
+        let meta = Meta { abnormal_end: false, dgram_cap: [sc.cfg[0].dgram_buf, sc.cfg[1].dgram_buf], stream_is_bridge: false, sim: true, ..Meta::default() };
         let c = execute(&mut st, spec, &sc, &meta, "random");
         record_coverage(&mut st, &sc, &c, spec, seed);
         if st.too_many_violations() {
@@ -411,7 +412,7 @@ pub fn rerun(cmd: &str, seed: u64, tail: usize) {
     for l in sim::render(&out.log, tail) {
         println!("{l}");
     }
-    let meta = Meta { abnormal_end: false, dgram_cap: [sc.cfg[0].dgram_buf, sc.cfg[1].dgram_buf], stream_is_bridge: false, sim: true };
+    let meta = Meta { abnormal_end: false, dgram_cap: [sc.cfg[0].dgram_buf, sc.cfg[1].dgram_buf], stream_is_bridge: false, sim: true, ..Meta::default() };
     let an = monitors::analyse(&out.log, &[Fam::Bytes, Fam::Credit, Fam::Eos, Fam::Abort, Fam::Open, Fam::Progress, Fam::Dgram, Fam::Panic], &meta);
     for f in an.findings {
         println!("FINDING {:?} {} :: {} (at {})", f.fam, f.sig, f.detail, f.at);
